@@ -193,6 +193,16 @@ def prove(pid, thorough):
 
 # ----------------------------------------------------------------------------- (K) correspondence
 
+def build_cli():
+    """the real CLI binary, rebuilt from /repo's working tree"""
+    with Lock(".cargo.lock"):
+        p = sh(["cargo", "build", "--offline", "-p", "sqllogictest-bin", "--target-dir",
+                os.path.join(HARNESS, "target", "cli")], cwd="/repo", check=False, timeout=3600)
+        if p.returncode != 0:
+            return p.stdout[-4000:]
+    return None
+
+
 def build_harness():
     with Lock(".cargo.lock"):
         lock_src = "/repo/Cargo.lock"
@@ -285,6 +295,11 @@ def correspond(pid, spec, tier, seed):
             ncases = len([l for l in text.split("\n") if l])
             open(os.path.join(outdir, "tags.txt"), "w").write("corpus\n" * ncases)
             open(os.path.join(outdir, "expect.txt"), "w").write("-\n" * ncases)
+        elif run.get("kind") == "cli":
+            p = sh(["python3", os.path.join(ROOT, "tools", "cli_harness.py"), "gen", prof, str(seed), str(n), tier, outdir],
+                   check=False, timeout=7200)
+            if p.returncode != 0:
+                raise MachineryError(f"cli harness gen {prof} failed: {p.stdout[-3000:]}")
         else:
             p = sh([HARNESS_BIN, "gen", prof, str(seed), str(n), tier, outdir], check=False, timeout=7200)
             if p.returncode != 0:
@@ -392,6 +407,10 @@ def run_check(pid, tier, seed):
         raise MachineryError("harness build failed (does /repo still compile?):\n" + err)
     if not os.path.exists(MODEL_BIN):
         raise MachineryError("model driver binary missing")
+    if any(r.get("kind") == "cli" for r in spec["runs"]):
+        err = build_cli()
+        if err:
+            raise MachineryError("CLI build failed (does /repo still compile?):\n" + err)
 
     stats = correspond(pid, spec, tier, seed)
     if stats["machinery"]:
@@ -490,7 +509,15 @@ def replay(pid, path):
     with Lock(".lake.lock"):
         sh(["lake", "build", "sltmodel"], cwd=LEAN)
     line = payload["case_line"] + "\n"
-    a = subprocess.run([HARNESS_BIN, "replay"], input=line, stdout=subprocess.PIPE, text=True, env=ENV).stdout.strip()
+    op = line.split(" ")[0]
+    if op in ("part", "partcfg", "serial", "climon", "clifmt"):
+        err = build_cli()
+        if err:
+            raise MachineryError(err)
+        a = subprocess.run(["python3", os.path.join(ROOT, "tools", "cli_harness.py"), "replay"], input=line,
+                           stdout=subprocess.PIPE, text=True, env=ENV).stdout.strip()
+    else:
+        a = subprocess.run([HARNESS_BIN, "replay"], input=line, stdout=subprocess.PIPE, text=True, env=ENV).stdout.strip()
     m = subprocess.run([MODEL_BIN], input=line, stdout=subprocess.PIPE, text=True).stdout.strip()
     print("case:           ", payload.get("case_decoded", "")[:3000])
     print("implementation: ", decode_line(a, 3000))
@@ -507,7 +534,7 @@ def setup():
             if os.path.exists(os.path.join(LEAN, "SltVerif", "Props", f"{pid}.lean"))]
     with Lock(".lake.lock"):
         sh(["lake", "build", "SltVerif", "sltmodel"] + mods, cwd=LEAN, timeout=7200)
-    err = build_harness()
+    err = build_harness() or build_cli()
     if err:
         raise MachineryError(err)
     print("setup ok")
